@@ -130,23 +130,26 @@ func runC08(c *core.Ctx) {
 		}
 		c.Check(okFC && okRoots, "election reads the index and the stored roots", "provenance", news[0].Pos(), "election.New(·, ·, dagIndex.ForklessCause, store.GetFrameRoots)", "the restarted election is not wired to the index's forkless cause / the persisted roots")
 		// epoch DB is opened for the persisted epoch before the election is created
-		ld := bs.CallsTo("abft.Orderer.loadEpochDB")
-		okLD := len(ld) == 1 && afterSuccess(bs, ld[0], news[0].Pt)
-		c.Check(okLD, "epoch database is opened before the election is restored", "T2+T4", bs.Pos(), "loadEpochDB() succeeded before election.New", "the election can be restored before the epoch database is open")
-		le := c.Fn("abft.Orderer.loadEpochDB")
+		// (openEpochDB is called in Bootstrap itself or in a helper that always calls it and hands its error on)
+		opens := c08sitesOf(bs, "abft.Store.openEpochDB", 2)
+		okLD := len(opens) == 1 && afterSuccess(bs, opens[0].Outer(), news[0].Pt)
+		c.Check(okLD, "epoch database is opened before the election is restored", "T2+T4", bs.Pos(), "openEpochDB succeeded before election.New", "the election can be restored before the epoch database is open")
 		okE := false
-		for _, cs := range le.CallsTo("abft.Store.openEpochDB") {
-			okE = isCallTo(le, cs.Call.Args[0], "abft.Store.GetEpoch") != nil
+		wherePos := bs.Pos()
+		for _, s := range opens {
+			g, arg := c08arg(s, 0)
+			okE = g != nil && isCallTo(g, arg, "abft.Store.GetEpoch") != nil
+			wherePos = s.Inner().Pos()
 		}
-		c.Check(okE, "the persisted epoch's database is opened", "provenance", le.Pos(), "openEpochDB(store.GetEpoch())", "a different epoch's database is opened on restart")
+		c.Check(okE, "the persisted epoch's database is opened", "provenance", wherePos, "openEpochDB(store.GetEpoch())", "a different epoch's database is opened on restart")
 		// the EpochDBLoaded callback is invoked with the stored epoch
-		cb := bs.CallsTo("abft.OrdererCallbacks.EpochDBLoaded")
-		okCB := len(cb) == 1 && isCallTo(bs, cb[0].Call.Args[0], "abft.Store.GetEpoch") != nil
+		cb := c09funcFieldCalls(bs, "abft.OrdererCallbacks.EpochDBLoaded")
+		okCB := len(cb) == 1 && len(cb[0].Call.Args) == 1 && isCallTo(bs, cb[0].Call.Args[0], "abft.Store.GetEpoch") != nil
 		if okCB {
 			okCB, _ = bs.MustPassBefore([]core.Point{cb[0].Pt}, news[0].Pt)
 			// unless nil
 			if !okCB {
-				_, found := core.PathQuery{F: bs, From: bs.Entry(), Target: core.PointSet(news[0].Pt), Avoid: core.PointSet(cb[0].Pt), AvoidEdge: bs.GuardEdges(fieldNilFact(bs, "abft.OrdererCallbacks.EpochDBLoaded", true))}.Find()
+				_, found := core.PathQuery{F: bs, From: bs.Entry(), Target: core.PointSet(news[0].Pt), Avoid: core.PointSet(cb[0].Pt), AvoidEdge: bs.GuardEdges(c09fieldNilFact(bs, "abft.OrdererCallbacks.EpochDBLoaded", true))}.Find()
 				okCB = !found
 			}
 		}
